@@ -9,7 +9,7 @@ EXPLANATION = ('Proof by local obligations on FinalizerObserver / FinalizerSubsc
                'FnOnce() only and lives in an Option inside a shared cell created once per actual_subscribe (at most once by typing); '
                'N2+N4 error(), complete() and unsubscribe() each deliver the downstream terminal / inner unsubscribe first and then take() '
                'and call the callback on every path on which it is still there; N3 no other method takes or calls it; N5 the take() is made '
-               'through the cell guard, so racing triggers cannot both obtain it; N8 the subscriber cell is never vacated while an item is delivered (same rule as C06.J11: otherwise a racing unsubscribe runs the callback mid-delivery and the write-back revives the subscription); N7 the shared subscriber slot upstream of finalize stays locked while it delivers a terminal, so a racing unsubscribe cannot run the callback before the terminal is through (same rule as C02.U6); N6 the callback cell is the innermost lock: no method of the finalize observer/subscription calls the inner subscription or the downstream observer while holding its guard (a terminating thread takes the cell last, under the source-side locks: the opposite order blocks both and the callback never runs). All obligations must be discharged.')
+               'through the cell guard, so racing triggers cannot both obtain it; N9 actual_subscribe of the finalize operators neither takes nor calls the callback (subscribing is not one of the three events); N8 the subscriber cell is never vacated while an item is delivered (same rule as C06.J11: otherwise a racing unsubscribe runs the callback mid-delivery and the write-back revives the subscription); N7 the shared subscriber slot upstream of finalize stays locked while it delivers a terminal, so a racing unsubscribe cannot run the callback before the terminal is through (same rule as C02.U6); N6 the callback cell is the innermost lock: no method of the finalize observer/subscription calls the inner subscription or the downstream observer while holding its guard (a terminating thread takes the cell last, under the source-side locks: the opposite order blocks both and the callback never runs). All obligations must be discharged.')
 ASSUMPTIONS = ['RefCell/Mutex give exclusive access to the Option<F> slot; a value moved out by Option::take cannot be obtained twice']
 TECHNIQUE = 'static analysis: type-bound (SIG) obligations and regular-language rules over MIR event graphs'
 
@@ -216,6 +216,14 @@ def _check_own(cx):
         res.append(Finding(ID, 'N1', label, ok and only_once,
                            'one shared Option cell per subscription, created from self.func; F: FnOnce() only' if ok and only_once else
                            'expected exactly one $rc::own(Some(self.func)) per actual_subscribe and F bound by FnOnce only', fn['span']))
+        # N9: subscribing is not one of the three events: actual_subscribe neither takes anything out of an Option nor calls a closure
+        # (the callback would run before any complete / error / unsubscribe of this subscription, and none would follow the real event)
+        from ..core import node_desc
+        early = [n for n in g.nodes if n['kind'] in ('call', 'enter') and (n['name'] in FN_CALLS or n['name'] in TAKE)]
+        res.append(Finding(ID, 'N9', label, not early,
+                           'subscribing neither takes nor calls the callback' if not early else
+                           'actual_subscribe takes or calls a closure (%s): subscribing is none of complete / error / unsubscribe, the callback runs before the first of those events and not after it' % early[0]['name'].rsplit('::', 2)[-2:],
+                           g.loc(early[0]) if early else fn['span'], [node_desc(g, x) for x in early]))
     if not cx.control:
         for tag in list(table) + ops:
             if tag not in found:
